@@ -556,3 +556,15 @@ Proof.
     pose proof (dth_pos (dot ROps x w + b)) as D. unfold dth in D.
     pose proof (th_bounds (dot ROps x w + b)). nra.
 Qed.
+
+(* ---------------- Concatenate / Stack / Vmap: block-diagonal Jacobians ---------------- *)
+(* the children act on disjoint slices, so the Jacobian is block diagonal and the python sum of the
+   children's log-dets is ln |det| of it (det_ublock) *)
+Theorem block_diag_ldj n1 n2 (A B : nat -> nat -> R) (l1 l2 : R) :
+  l1 = ln (Rabs (detF n1 A)) -> detF n1 A <> 0 -> l2 = ln (Rabs (detF n2 B)) -> detF n2 B <> 0 ->
+  l1 + l2 = ln (Rabs (detF (n1 + n2) (blockF n1 A B))) /\ detF (n1 + n2) (blockF n1 A B) <> 0.
+Proof.
+  intros -> N1 -> N2. rewrite detF_block_diag. split.
+  - rewrite Rabs_mult, ln_mult; [reflexivity | |]; apply Rabs_pos_lt; assumption.
+  - apply Rmult_integral_contrapositive_currified; assumption.
+Qed.
